@@ -92,6 +92,17 @@ CLAIMED = {
         "column; the line delimiter actually written is not judged.",
         "5/C12",
     ),
+    "C14": (
+        "hypothesis write histories against a writer model, stream inspected after every call, read-back round trip",
+        "Generated CIDs (delimited, fixed with every line delimiter setting, header 0-1, whole-file checks) and "
+        "histories of 0-8 write_row calls mixing accepted rows, rejected cells, wrong item counts and duplicate "
+        "keys; after every call the stream must hold exactly the model's rendering of the rows accepted so far, a "
+        "rejection must leave it untouched, close() must raise the model's end verdict, and the output must read "
+        "back accepted and equal under a fresh CID.",
+        "Trusts Python's csv reader for parsing delimited output; header rows are generated well-formed because "
+        "the writer does not validate them.",
+        "5/C14",
+    ),
     "C15": (
         "hypothesis tables through an independent ODF encoder (round trip) + enumerated container faults",
         "Tables are written by an independent encoder (vlib/enc_ods.py, no cutplace import) with each optional ODF "
@@ -111,6 +122,15 @@ CLAIMED = {
         "Trusts XlsxWriter and xlrd (self-tested per run); notation of numbers >= 1e16 and of fractions is only "
         "required to denote the same double with no more digits than repr.",
         "5/C16",
+    ),
+    "C17": (
+        "hypothesis 3x3 storage differential (CID as csv/ods/xlsx x data as delimited/ods/excel) plus model",
+        "One generated CID and table are stored in every combination of CID storage and data storage; the loaded "
+        "CIDs must be equivalent and the nine validation runs must agree row by row (verdict, error class, column, "
+        "returned values) and with the validation reference model.",
+        "Rows are rectangular with a non-empty last cell (what all three storages can represent); cells whose "
+        "reference verdict is format specific by documentation are neutral.",
+        "5/C17",
     ),
     "C19": (
         "exhaustive boundary-pair sweep + hypothesis CIDs, generated DDL parsed back against a capacity table",
